@@ -49,6 +49,10 @@ def cases(tier, seed):
                            starts=("interior", "face", "vertex", "outward"), condmax=1e3)
         spec = {"problem": ps, "maxcor": int(rng.integers(1, 7)), "maxls": int(gen.pick(rng, [2, 5, 20])), "K": int(rng.integers(4, 13)),
                 "scaler": float(np.exp(rng.uniform(np.log(1e-2), np.log(1e2)))) if i % 3 == 0 else None}
+        if i % 13 == 12:
+            # scale: dimensions and memories larger than the bulk of the cases
+            ps["n"] = int(rng.integers(20, 41))
+            spec["maxcor"] = int(rng.integers(11, 21))
         if i % 5 == 2:
             spec["reuse_grad_buffer"] = True  # the user's gradient fills and returns one preallocated array
         if i % 4 == 1:
